@@ -65,11 +65,116 @@ def run_queries(insp):
 TRACING = [False]
 
 
+# How a chunk is handed over: an immutable bytes object, or - as a reader
+# that fills one buffer over and over (readinto loops) does - a bytearray or
+# a memoryview of a buffer whose content the caller overwrites as soon as
+# eat_chunk / read returns.  The stream's bytes are what was presented at the
+# time of the call; nothing may depend on what the caller's buffer holds later.
+CHUNK_TYPE = ['bytes']
+CHUNK_TYPES = ('bytes', 'bytes', 'bytearray', 'memoryview')
+
+
 def tracing_for(key):
-    """Deterministic per-case choice of the tracing flag."""
+    """Deterministic per-case choice of the tracing flag (and of the chunk
+    object type, see CHUNK_TYPE)."""
     from vcheck import core
-    TRACING[0] = bool(core.h64(('tracing', key)) & 1)
+    h = core.h64(('tracing', key))
+    TRACING[0] = bool(h & 1)
+    CHUNK_TYPE[0] = CHUNK_TYPES[(h >> 1) & 3]
+    LOGLEVEL[0] = LOGLEVELS[(h >> 3) & 3]
+    DECOY[0] = DECOYS[(h >> 5) & 3]
     return TRACING[0]
+
+
+# Instance isolation: while the stream under test is being read, a second,
+# unrelated stream is read through another instance (of the same inspector
+# class, or another InspectWrapper), one chunk after each chunk of the first.
+# What the first one concludes may not depend on it.
+DECOY = [None]
+DECOYS = (None, None, 'noise', 'image')
+
+
+def decoy_bytes(kind, name=None):
+    from vcheck import imggen
+    if kind == 'image':
+        # a well-formed image of the inspector's own format if there is one
+        fmt = name if name in imggen.FORMATS and name != 'raw' else 'qcow2'
+        try:
+            return imggen.build(fmt, {}).data[:70000]
+        except Exception:
+            return imggen.build('qcow2', {}).data
+    return imggen.rnd(0xDEC0, 1536) + b'\0' * 512
+
+
+# The logging configuration of the process (a service logging only errors,
+# a debug run, logging switched off altogether) is ambient too: drive() and
+# drive_wrapper() run under the level chosen here.
+LOGLEVEL = [None]
+LOGLEVELS = (None, 'DEBUG', 'CRITICAL', 'DISABLED')
+
+
+class Presenter:
+    """Hands out chunks in the ambient CHUNK_TYPE and scribbles over the
+    buffer afterwards."""
+
+    def __init__(self, kind=None):
+        self.kind = kind or CHUNK_TYPE[0]
+        self.buf = bytearray(0)
+
+    def give(self, chunk):
+        """-> (object to present, handle for scribble() or None)"""
+        if self.kind == 'bytes' or not chunk:
+            return chunk, None
+        if self.kind == 'bytearray':
+            ba = bytearray(chunk)
+            return ba, ba
+        n = len(chunk)
+        if len(self.buf) < n:
+            self.buf = bytearray(n)     # never resized while views exist
+        self.buf[:n] = chunk
+        return memoryview(self.buf)[:n], (self.buf, n)
+
+    @staticmethod
+    def scribble(handle):
+        if handle is None:
+            return
+        if isinstance(handle, tuple):
+            buf, n = handle
+            buf[:n] = b'\xa5' * n
+        else:
+            handle[:] = b'\xa5' * len(handle)
+
+
+class MutableChunkSource:
+    """File-like / iterable source whose chunks are bytearrays (kind
+    'bytearray') or memoryviews of one reused buffer; the reader scribbles
+    over each chunk once it has copied it (see drive_wrapper)."""
+
+    def __init__(self, inner, presenter):
+        self._inner = inner
+        self._p = presenter
+        self.handles = []
+
+    def read(self, size=-1):
+        obj, h = self._p.give(self._inner.read(size))
+        self.handles.append(h)
+        return obj
+
+    def __iter__(self):
+        return self
+
+    def __next__(self):
+        obj, h = self._p.give(next(self._inner))
+        self.handles.append(h)
+        return obj
+
+    def tell(self):
+        return self._inner.tell()
+
+    def close(self):
+        close = getattr(self._inner, 'close', None)
+        if close:
+            close()
 
 
 def new_inspector(name):
@@ -84,21 +189,41 @@ def new_inspector(name):
 
 
 def drive(name, data, schedule, queries=None, fidelity=False,
-          after_chunk=None):
+          after_chunk=None, kind=None):
     """Feed `data` cut by `schedule` to a fresh inspector of format `name`.
 
     Returns (verdict, inspector, fidelity_failures).  On an exception out of
     eat_chunk the inspector is not fed again (InspectWrapper's contract).
     """
+    with inspector_loglevel(LOGLEVEL[0]):
+        return _drive(name, data, schedule, queries, fidelity, after_chunk,
+                      kind)
+
+
+def _drive(name, data, schedule, queries, fidelity, after_chunk, kind):
     insp = new_inspector(name)
     err = None
     fid = []
+    pres = Presenter(kind)
+    decoy = dbytes = None
+    if DECOY[0] and kind is None:
+        decoy = new_inspector(name)
+        dbytes = decoy_bytes(DECOY[0], name)
     for i, chunk in enumerate(chunking.chunks(data, schedule)):
+        obj, handle = pres.give(chunk)
         try:
-            insp.eat_chunk(chunk)
+            insp.eat_chunk(obj)
         except Exception as e:
             err = type(e).__name__
             break
+        finally:
+            del obj
+            Presenter.scribble(handle)
+        if decoy is not None:
+            try:
+                decoy.eat_chunk(dbytes[i * 512:(i + 1) * 512])
+            except Exception:
+                decoy = None
         if queries is not None and i in queries:
             run_queries(insp)
         if fidelity and not fid:
@@ -178,6 +303,14 @@ def inspector_loglevel(level):
     if not level:
         yield
         return
+    if level == 'DISABLED':
+        saved_disable = logging.root.manager.disable
+        logging.disable(logging.CRITICAL)
+        try:
+            yield
+        finally:
+            logging.disable(saved_disable)
+        return
     lg = logging.getLogger('oslo_utils.imageutils.format_inspector')
     saved = lg.level
     lg.setLevel(getattr(logging, level))
@@ -188,7 +321,7 @@ def inspector_loglevel(level):
 
 
 def drive_wrapper(data, schedule, mode='read', expected=None, allowed=None,
-                  sample=False):
+                  sample=False, kind=None):
     """Read `data` through InspectWrapper with the given read sizes.
 
     mode 'read': wrapper.read(size) for each schedule entry (an empty read
@@ -198,6 +331,29 @@ def drive_wrapper(data, schedule, mode='read', expected=None, allowed=None,
     samples = []
     got = []
     err = None
+    pres = Presenter(kind)
+
+    def keep(c):
+        # the reader copies what it was given and then reuses its buffer
+        got.append(bytes(c))
+        if pres.kind != 'bytes' and src_m.handles:
+            Presenter.scribble(src_m.handles[-1])
+
+    src_m = None
+    decoy = None
+    if DECOY[0] and kind is None:
+        decoy = F.InspectWrapper(io.BytesIO(decoy_bytes(DECOY[0])))
+
+    def poke():
+        # one read on the unrelated stream, and a look at its conclusion
+        nonlocal decoy
+        if decoy is not None:
+            try:
+                decoy.read(512)
+                wrapper_outcome(decoy)
+            except Exception:
+                decoy = None
+
     if mode in ('read', 'short'):
         sizes = chunking.sizes_of(schedule, len(data))
         if mode == 'short':
@@ -208,32 +364,44 @@ def drive_wrapper(data, schedule, mode='read', expected=None, allowed=None,
         else:
             src = io.BytesIO(data)
             asks = sizes
+        if pres.kind != 'bytes':
+            src = src_m = MutableChunkSource(src, pres)
         w = F.InspectWrapper(src, expected_format=expected,
                              allowed_formats=allowed)
         try:
             if sample:
                 samples.append(wrapper_outcome(w))      # before any read
             for sz in asks:
-                got.append(w.read(sz))
+                keep(w.read(sz))
+                poke()
                 if sample:
                     samples.append(wrapper_outcome(w))
-            got.append(w.read(1))      # EOF read (empty)
+            keep(w.read(1))      # EOF read (empty)
             if sample:
                 samples.append(wrapper_outcome(w))
         except Exception as e:
             err = type(e).__name__
     else:
-        w = F.InspectWrapper(iter(list(chunking.chunks(data, schedule))),
-                             expected_format=expected,
+        src = iter(list(chunking.chunks(data, schedule)))
+        if pres.kind != 'bytes':
+            src = src_m = MutableChunkSource(src, pres)
+        w = F.InspectWrapper(src, expected_format=expected,
                              allowed_formats=allowed)
         try:
             if sample:
                 samples.append(wrapper_outcome(w))      # before any chunk
             for c in w:
-                got.append(c)
+                keep(c)
+                poke()
                 if sample:
                     samples.append(wrapper_outcome(w))
         except Exception as e:
             err = type(e).__name__
-    w.close()
+    try:
+        w.close()
+    except Exception as e:
+        # close() finishes the inspectors; what escapes from it reaches the
+        # reader like any other error of the wrapper
+        if err is None:
+            err = 'close:' + type(e).__name__
     return wrapper_outcome(w), samples, b''.join(got), err, w
